@@ -127,9 +127,13 @@ func genFsOps(r *Rand, n int, extra []string, plainSpelling bool, gm *ModelTree)
 			}
 			if r.Chance(1, 25) && op.Data != "" {
 				op.Big = r.Pick(4096, 33000, 70000) // past buffer, page and "large file" thresholds
-				if r.Chance(1, 3) {
+				switch r.Intn(3) {
+				case 0:
 					op.Big = r.Pick(4096, 8192, 12288, 70000)
 					op.Zero = true // all-zero blocks and a zero tail: what a sparse-aware copy skips
+				case 1:
+					op.Big = r.Pick(256, 300, 4096, 70000)
+					op.Bin = true // every byte value, not valid UTF-8
 				}
 			}
 			if op.Kind == "Writer" {
